@@ -33,6 +33,7 @@ import ast
 from harness.py2lean import (FuncCompiler, Ex, TV, prune, parse_type, lean_char, lean_ident, indent_rest,
                              INT, NAT, BOOL, STR)
 from harness.py2lean import lean_str as P_lean_str
+from harness.py2lean import ExprCompiler as P_ExprCompiler
 
 AMBIG = '?'
 
@@ -923,3 +924,188 @@ def render_small_records(gen, spec, func_texts):
             lines.append('  %s : %s' % (lean_ident(k), py2lean.lean_type(fields[k])))
         lines.append('  deriving Inhabited')
         func_texts.append('\n'.join(lines))
+
+
+# =================================================================================================
+# tables.py `_descriptors_from_ids_iter` (C14): the id iterator as (list of remaining ids), descriptor objects as the sum
+# type `Py.Small.Descr`, the table group as lookup functions.  notes/Tie.md, "The template builder".
+class _BuilderExpr(P_ExprCompiler):
+    """expressions of the builder: `id_`, int literals, comparisons, arithmetic, `descriptor.n_items`"""
+
+    def e_Attribute(self, e):
+        if isinstance(e.value, ast.Name) and e.value.id == 'descriptor' and e.attr == 'n_items':
+            # the property `ReplicationDescriptor.n_items` translated from descriptors.py reads `self.id` only
+            return Ex('(PyGen.descriptors.ReplicationDescriptor.n_items ⟨Py.Small.Descr.id descriptor, []⟩)', INT)
+        self.bad(e, 'attribute access in the template builder other than descriptor.n_items')
+
+
+def _dump(n):
+    return ast.dump(n, annotate_fields=False)
+
+
+def _is_call(n, fname, nargs=None):
+    return (isinstance(n, ast.Call) and not n.keywords and _dump(n.func) == _dump(ast.parse(fname, mode='eval').body)
+            and (nargs is None or len(n.args) == nargs))
+
+
+def render_iter_builder(gen, spec, func_texts):
+    from harness import py2lean
+    mod = gen.mod
+    bs = spec['iter_builder']
+
+    def bad(node, what):
+        raise py2lean.Py2LeanUnsupported(mod.relpath, node, 'template builder: ' + what)
+
+    # ---- TableR.lookup: which replication descriptor an id gives
+    cn = mod.classes.get('TableR', [])
+    if len(cn) != 1:
+        bad(0, 'class TableR not found exactly once')
+    lk = [n for n in cn[0].body if isinstance(n, ast.FunctionDef) and n.name == 'lookup']
+    if len(lk) != 1 or [a.arg for a in lk[0].args.args] != ['self', 'id_']:
+        bad(cn[0], 'TableR.lookup(self, id_) not found')
+    body = list(lk[0].body)
+    conv = "If(UnaryOp(Not(), Call(Name('isinstance', Load()), [Name('id_', Load()), Name('Integral', Load())])), [Assign([Name('id_', Store())], Call(Name('int', Load()), [Name('id_', Load())]))])"
+    if not (len(body) == 2 and _dump(body[0]).replace(', [], [])', ')').replace(', [])', ')') == conv.replace(', [], [])', ')').replace(', [])', ')')
+            or len(body) == 2 and isinstance(body[0], ast.If) and 'isinstance' in _dump(body[0].test) and 'Integral' in _dump(body[0].test)):
+        bad(lk[0], 'TableR.lookup: first statement is not the int conversion of id_')
+    sel = body[1]
+    if not (isinstance(sel, ast.If) and len(sel.body) == 1 and len(sel.orelse) == 1
+            and isinstance(sel.body[0], ast.Return) and isinstance(sel.orelse[0], ast.Return)
+            and _is_call(sel.body[0].value, 'DelayedReplicationDescriptor', 1) and _is_call(sel.orelse[0].value, 'FixedReplicationDescriptor', 1)
+            and _dump(sel.body[0].value.args[0]) == _dump(ast.Name('id_', ast.Load()))
+            and _dump(sel.orelse[0].value.args[0]) == _dump(ast.Name('id_', ast.Load()))):
+        bad(sel, 'TableR.lookup is not `if <test>: return DelayedReplicationDescriptor(id_) else: return FixedReplicationDescriptor(id_)`')
+    ec = _BuilderExpr(mod, gen)
+    ec.names = {'id_': ('id_', INT)}
+    test = ec.as_bool(ec.expr(sel.test), sel.test)
+    if test.raises:
+        bad(sel, 'TableR.lookup test may raise')
+    a, b, _ = mod.src(lk[0])
+    func_texts.append('\n'.join([
+        '/-- %s:%d-%d  `TableR.lookup` (ids are ints: the `int()` conversion of a non-int id is not modelled): a fresh' % (mod.relpath, a, b),
+        '    `DelayedReplicationDescriptor(id_)` (no factor, no members yet) or `FixedReplicationDescriptor(id_)` -/',
+        'def TableR.lookup {ε : Type} (id_ : Int) : Py.Small.Descr ε :=',
+        '  if %s then .delayedRep id_ none [] else .fixedRep id_ []' % test.code]))
+    gen.items.append({'kind': 'method', 'name': 'TableR.lookup', 'lines': [a, b], 'may_raise': False})
+
+    # ---- the builder
+    fname = bs['func']
+    fn = mod.funcs.get(fname, [])
+    if len(fn) != 1:
+        bad(0, 'function %s not found exactly once' % fname)
+    fn = fn[0]
+    if [x.arg for x in fn.args.args] != ['b', 'c', 'r', 'd', 'next_id'] or fn.args.vararg or fn.args.kwarg or fn.args.defaults:
+        bad(fn, 'parameters are not (b, c, r, d, next_id)')
+    body = list(fn.body)
+    if body and isinstance(body[0], ast.Expr) and isinstance(body[0].value, ast.Constant):
+        body = body[1:]
+    if not (len(body) == 3 and _dump(body[0]) == _dump(ast.parse('descriptors = []').body[0])
+            and isinstance(body[1], ast.While) and isinstance(body[1].test, ast.Constant) and body[1].test.value is True
+            and not body[1].orelse and _dump(body[2]) == _dump(ast.parse('return descriptors').body[0])):
+        bad(fn, 'body is not `descriptors = []; while True: …; return descriptors`')
+    loop = body[1].body
+    if len(loop) != 2 or not isinstance(loop[0], ast.Try) or not isinstance(loop[1], ast.If):
+        bad(body[1], 'loop body is not `try: … except StopIteration: break` followed by one if / elif chain')
+    tr = loop[0]
+    ok = (not tr.orelse and not tr.finalbody and len(tr.handlers) == 1 and tr.handlers[0].name is None
+          and _dump(tr.handlers[0].type) == _dump(ast.Name('StopIteration', ast.Load()))
+          and len(tr.handlers[0].body) == 1 and isinstance(tr.handlers[0].body[0], ast.Break)
+          and len(tr.body) == 2 and _dump(tr.body[0]) == _dump(ast.parse('id_ = next_id()').body[0])
+          and isinstance(tr.body[1], ast.If) and 'isinstance' in _dump(tr.body[1].test) and 'Integral' in _dump(tr.body[1].test)
+          and not tr.body[1].orelse and len(tr.body[1].body) == 1
+          and _dump(tr.body[1].body[0]) == _dump(ast.parse('id_ = int(id_)').body[0]))
+    if not ok:
+        bad(tr, 'loop head is not `try: id_ = next_id(); if not isinstance(id_, Integral): id_ = int(id_)  except StopIteration: break`')
+
+    def expr(node):
+        x = ec.to_int(ec.expr(node))
+        if x.raises:
+            bad(node, 'expression may raise')
+        return x.code
+
+    def lookup_call(node):
+        for t in ('b', 'c', 'd'):
+            if _is_call(node, '%s.lookup' % t, 1):
+                return t, node.args[0]
+        return None
+
+    def branch(stmts):
+        out = []
+        for st in stmts:
+            d = _dump(st)
+            if (isinstance(st, ast.Expr) and _is_call(st.value, 'descriptors.append', 1)):
+                arg = st.value.args[0]
+                lc = lookup_call(arg)
+                if lc is not None:
+                    out.append('let descriptors := descriptors ++ [env.%s_lookup %s]' % (lc[0], expr(lc[1])))
+                elif _dump(arg) == _dump(ast.Name('descriptor', ast.Load())):
+                    out.append('let descriptors := descriptors ++ [descriptor]')
+                else:
+                    bad(st, 'descriptors.append of something else than a table lookup or `descriptor`')
+            elif d == _dump(ast.parse('descriptor = r.lookup(id_)').body[0]):
+                out.append('let descriptor : Py.Small.Descr ε := TableR.lookup id_')
+            elif d == _dump(ast.parse('if isinstance(descriptor, DelayedReplicationDescriptor):\n    descriptor.factor = b.lookup(next_id())').body[0]):
+                # next_id() outside the try: StopIteration propagates to the caller
+                out.append('let (descriptor, ids) ← (if Py.Small.Descr.isDelayed descriptor then\n'
+                           '      (match ids with\n'
+                           '       | [] => (.error (.raised "StopIteration") : Except Py.Exc (Py.Small.Descr ε × List Int))\n'
+                           '       | f :: ids\' => .ok (Py.Small.Descr.setFactor descriptor (env.b_lookup f), ids\'))\n'
+                           '    else .ok (descriptor, ids))')
+            elif (isinstance(st, ast.Assign) and len(st.targets) == 1 and _dump(st.targets[0]) == _dump(ast.Name('g', ast.Store()))
+                  and _is_call(st.value, 'generate_quiet', 2) and _is_call(st.value.args[0], 'range', 1)
+                  and _dump(st.value.args[1]) == _dump(ast.Name('next_id', ast.Load()))):
+                n = expr(st.value.args[0].args[0])
+                # the generator hands out at most n of the next ids of the shared iterator; its only consumer (the
+                # recursive call below) exhausts it, so it is the list of the next n ids and the position moves past them
+                out.append('let g := List.take (%s).toNat ids' % n)
+                out.append('let ids := List.drop (%s).toNat ids' % n)
+            elif d == _dump(ast.parse('descriptor.members = %s(b, c, r, d, functools.partial(next, g))' % fname).body[0]):
+                out.append('let members ← loop env fuel g []')
+                out.append('let descriptor := Py.Small.Descr.setMembers descriptor members')
+            else:
+                bad(st, 'statement is not in the table of the template builder')
+        return out
+
+    # the chain
+    arms, node = [], loop[1]
+    while True:
+        c = ec.as_bool(ec.expr(node.test), node.test)
+        if c.raises:
+            bad(node, 'test may raise')
+        arms.append((c.code, branch(node.body)))
+        if len(node.orelse) == 1 and isinstance(node.orelse[0], ast.If):
+            node = node.orelse[0]
+            continue
+        arms.append((None, branch(node.orelse)))
+        break
+    lines = []
+    ind = '      '
+    for i, (c, steps) in enumerate(arms):
+        if c is not None:
+            lines.append('%s%sif %s then (do' % (ind, 'else ' if i else '', c))
+        else:
+            lines.append('%selse (do' % ind)
+        for stp in steps:
+            lines.append(ind + '    ' + stp.replace('\n', '\n' + ind + '    '))
+        lines.append(ind + '    loop env fuel ids descriptors)')
+    a, b, _ = mod.src(fn)
+    text = '\n'.join([
+        '/-- the table group as the builder uses it: the three lookups that return existing descriptor objects -/',
+        'structure TableGroup (ε : Type) where',
+        '  b_lookup : Int → Py.Small.Descr ε',
+        '  c_lookup : Int → Py.Small.Descr ε',
+        '  d_lookup : Int → Py.Small.Descr ε',
+        '',
+        '/-- %s:%d-%d  `def %s`: the `while True` loop.  `ids`: what the iterator behind `next_id` still holds;' % (mod.relpath, a, b, fname),
+        '    `descriptors`: the list built so far; `StopIteration` of the first `next_id()` = the list is empty = `break`,',
+        '    then `return descriptors`.  Structural recursion on the fuel (loop iterations and recursive calls). -/',
+        'def %s.loop {ε : Type} (env : TableGroup ε) : Nat → List Int → List (Py.Small.Descr ε) → Except Py.Exc (List (Py.Small.Descr ε))' % fname,
+        '  | 0, _, _ => .error .outOfFuel',
+        '  | _ + 1, [], descriptors => .ok descriptors',
+        '  | fuel + 1, id_ :: ids, descriptors =>'] + lines + [
+        '',
+        '/-- `%s(b, c, r, d, next_id)` with `next_id` = `functools.partial(next, iter(ids))` -/' % fname,
+        'def %s {ε : Type} (env : TableGroup ε) (fuel : Nat) (ids : List Int) : Except Py.Exc (List (Py.Small.Descr ε)) :=' % fname,
+        '  %s.loop env fuel ids []' % fname])
+    func_texts.append(text)
+    gen.items.append({'kind': 'function', 'name': fname, 'lines': [a, b], 'may_raise': True})
